@@ -136,7 +136,11 @@ func (fr *frame) set(v ssa.Value, x Value) {
 }
 
 func (p *Path) runtimePanic(msg string) {
-	panic(&goPanic{v: Iface{T: p.E.tString, V: msg}, msg: "runtime error: " + msg})
+	at := ""
+	if n := len(p.stack); n > 0 {
+		at = p.stack[n-1].String()
+	}
+	panic(&goPanic{v: Iface{T: p.E.tString, V: msg}, msg: "runtime error: " + msg, at: at})
 }
 
 // callFn interprets fn(args) and returns its result.
